@@ -305,6 +305,22 @@ def run(ctx):
                ["picklecheck", [[S, ctx.rng.randint(-9, 9)], [S, ctx.rng.randint(-9, 9)], [T2, 1]]]]
         ncases.append({"store": [["c", {"kind": "dict", "items": [[k, 0] for k in "abcd"]}]], "ops": ops})
     nested_fail = []
+    # a long chain of definitions, every one of them replaced again from the consumer end down to the source, then pickled
+    # (whatever a task remembers of the tasks around it must not make the pickled graph deeper than the data)
+    nchain = ctx.pick(3000, 6000)
+    V = lambda i: ["c", ["i", f"v{i}"]]
+    chain = mc.chain_case(nchain)
+    chain["ops"] = chain["ops"][:-1] + [["set", V(i), ["expr", ["bin", "+", ["ref", V(i - 1)], ["const", 2]]], "sv"] for i in range(nchain, 0, -1)] \
+        + [["picklecheck", [[V(0), 3], [V(nchain // 2), -1]]]]
+    cobs = mc.run_impl_cases([chain], opts={"snapshots": False}, timeout=3000)
+    pr = (cobs[0][-1].get("pickle") or {}).get("problems") if cobs[0] else ["no observation"]
+    if cobs[0] and cobs[0][0].get("crash"):
+        pr = ["the library raised while being observed: " + cobs[0][0]["crash"][-400:]]
+    if pr:
+        small = {"store": chain["store"], "ops": chain["ops"]}
+        nested_fail.append((len(ncases), "compiled", pr))
+    ncases_all = ncases + [chain]
+    ctx.evaluations += len(chain["ops"])
     for b in ("compiled", "pure"):
         nobs = mc.run_impl_cases(ncases, build=b)
         for i, ol in enumerate(nobs):
@@ -321,7 +337,7 @@ def run(ctx):
     if nested_fail and not oracle_fail:
         i, b, pr = nested_fail[0]
         vlib.violation(ctx, {"kind": "oracle", "what": "the restored manager is not an independent, behaviourally identical copy",
-                             "build": b, "mgr_case": ncases[i], "problems": pr, "how_to_replay": "./check C12 --replay <this file>"})
+                             "build": b, "mgr_case": ncases_all[i], "problems": pr, "how_to_replay": "./check C12 --replay <this file>"})
         return
 
     if oracle_fail:
